@@ -2,20 +2,28 @@
 
 Two correspondence streams (see harness/c07/main.cpp and lean/FeatModel/Driver/C07.lean):
   control : the stopping-criterion state machine of IterativeSolver at double, fed with dyadic / non-finite defects
-  solvers : sessions of apply()/correct() calls on one real PCG / Richardson / PCR / PMR / BiCGStab object at the exact scalar Q
+  solvers : sessions of apply()/correct() calls on one real PCG / Richardson / PCR / PMR / PCGNR / BiCGStab object at the exact scalar Q
 The oracle below is independent Python (fractions): it recomputes the true residual ||F(b - A x)|| from the returned
 iterate, a dense reference solution, and judges the reported status against the configured limits and the defects
 the solver produced.
 
 Findings (standard mechanism: executed and judged on every run, matched against KNOWN_FINDINGS.json by signature):
-  c07-edge:F2  BiCGStab's half-step test returns 'success' before min_iter iterations
   c07-edge:F3  'success' judged from the stale initial defect when the defect computation is skipped
                (default skip_defect_calc, min_iter >= max_iter): the true residual violates the tolerances
+  c07-edge:F6  BiCGStab applies the preconditioner BEFORE _set_initial_defect; if it fails, 'aborted' is returned with
+               get_num_iter()/get_def_*() still showing the previous solve (outcome depends on the history)
+  c07-edge:F7  (double-precision stream) FGMRES divides by the norm of the new Arnoldi vector without a happy-breakdown
+               test: on a system whose Krylov space is smaller than krylov_dim (e.g. the identity) it returns 'aborted'
+               with a NaN iterate
+  (F-C07-2, BiCGStab's half-step test returning 'success' before min_iter iterations, is fixed in /repo (784169477);
+  its input stays in the corpus as a regression line.)
   (F-C07-1, BiCGStab returning Status::undefined on an already converged initial defect, is fixed in /repo; its input
   stays in the corpus and must now give success with 0 iterations.)
 Documented observations that are *outside* the property and therefore accepted by the oracle:
   F-C07-4  PCG/PCR keep iterating while num_iter < min_iter even when the defect is exactly 0; the next step is 0/0
-           (division-by-zero abort of the exact scalar, NaN -> 'aborted' at floating point).  The property speaks about
+           (division-by-zero abort of the exact scalar, NaN -> 'aborted' with a NaN iterate at floating point; the
+           double-precision stream hits this on 2x2/3x3 systems, e.g.
+           solved pcg 2 2 -1 -1 2 none none 1/1000000 1000000000 1/1000000000 1000000000 1000000000000 19/20 2 60 0 1 1 1 c 0 0 1 1 0).  The property speaks about
            runs that return a status for systems "within each method's scope"; an exactly zero residual before min_iter
            is a degenerate Krylov space (breakdown), which only the exact scalar hits; counted as
            input class 'breakdown-forced-by-min-iter'.
@@ -39,11 +47,14 @@ if hasattr(sys, "set_int_max_str_digits"):
 
 ST_NAMES = {0: "undefined", 1: "progress", 2: "success", 3: "aborted", 4: "diverged", 5: "max_iter", 6: "stagnated"}
 EPS2 = Fr(1, 2 ** 104)  # sqr(eps) for double and for Q
+SENTINEL = Fr(7777)       # the mock preconditioner rejects a defect whose first entry is this value
+HALF_STEP_KINDS = ("bicgstab", "rbicgstab")
 OVERSIZE = 3000000       # characters of one implementation output line (largest seen on the unchanged tree: 2.5e6)
 
 # measured while the oracle runs; written into the evidence file
 STATS = {"terminal_status": {}, "input_classes": {}, "max_iters_seen": 0, "exact_reference_hits": 0,
-         "true_residual_checks": 0, "pair_checks": 0}
+         "true_residual_checks": 0, "pair_checks": 0,
+         "half_step_exits_checked": 0, "leak_probe_solves": 0}
 
 
 def bump(d, k, n=1):
@@ -369,11 +380,13 @@ def fmt_mat(a):
 
 
 def gen_solve(rng, tier):
-    kind = rng.choice(["pcg", "pcg", "pcg", "rich", "rich", "pcr", "pmr", "bicgstab", "bicgstab"])
+    kind = rng.choice(["pcg", "pcg", "pcg", "rich", "rich", "pcr", "pmr", "pcgnr", "bicgstab", "bicgstab"])
     n = rng.choice([1, 2, 2, 3, 3, 4, 4, 5, 6] if tier == "quick" else [1, 2, 3, 3, 4, 4, 5, 5, 6, 7])
     tags = []
     # matrix class
-    if kind in ("pcg", "pcr", "pmr"):
+    if kind == "pcgnr":
+        mc = rng.choice(["spd", "nonsym", "nonsym", "indef"])
+    elif kind in ("pcg", "pcr", "pmr"):
         mc = rng.choice(["spd", "spd", "spd", "spd", "nonsym", "indef"])
     elif kind == "rich":
         mc = rng.choice(["spd", "nonsym", "nonsym", "indef"])
@@ -464,7 +477,9 @@ def gen_solve(rng, tier):
         cfg.stag_rate = rng.choice([Fr(1, 2), Fr(19, 20)])
     if kind != "rich":
         # exact rationals roughly double in length per Krylov iteration once the method leaves its scope
-        if kind == "bicgstab":
+        if kind in ("bicgstab", "rbicgstab"):
+            cap = 6
+        elif kind == "pcgnr":
             cap = 6
         elif kind == "pmr":
             cap = 5  # no finite termination: the rationals double per iteration
@@ -624,6 +639,9 @@ def in_scope(sc):
     if not free:
         return False
     aff = [[sc.a[i][j] for j in free] for i in free]
+    if sc.kind == "pcgnr":
+        # CG on the normal equations: any nonsingular matrix (unfiltered, unpreconditioned here)
+        return not sc.cons and sc.m is None and solve_dense(sc.a, [Fr(0)] * sc.n) is not None
     if sc.kind in ("pcg", "pcr", "pmr"):
         if not is_spd(aff):
             return False
@@ -657,7 +675,7 @@ def oracle_solve(case, out):
             return None
         return "solver session within the method's scope ended with " + out
     free = [i for i in range(sc.n) if i not in sc.cons]
-    exact_scope = scope and sc.kind in ("pcg", "pcr") and cfg.tol_rel == 0 and cfg.tol_abs_low == 0 \
+    exact_scope = scope and sc.kind in ("pcg", "pcr", "pcgnr") and cfg.tol_rel == 0 and cfg.tol_abs_low == 0 \
         and cfg.min_iter == 0 and cfg.min_stag == 0 and cfg.max_iter >= len(free) \
         and cfg.tol_abs >= 10 ** 9 and cfg.div_rel >= 10 ** 9 and cfg.div_abs >= 10 ** 12 \
         and (cfg.max_iter > 0 or not cfg.skip)
@@ -701,7 +719,7 @@ def oracle_solve(case, out):
             if not r["hist"] or r["hist"][0] != r["d0"]:
                 return tag + "defect history does not start with the initial defect"
         # aborted is only legitimate if the preconditioner failed
-        if st == 3 and not sc.fail_at:
+        if st == 3 and not sc.fail_at and not (sc.m is not None and SENTINEL in (list(b) + list(x0))):
             return tag + "aborted without a failing preconditioner"
         # cheap scope check first
         if exact_scope and (st != 2 or r["iters"] > len(free)):
@@ -711,9 +729,16 @@ def oracle_solve(case, out):
         if early_abort:
             if r["x"] != xs:
                 return tag + "iterate changed although the solver aborted before the first iteration"
+            if r["iters"] != 0 or r["d0"] not in (Fr(0), d0_true):
+                # the control members still hold the previous solve's values
+                edge = edge or F6_MSG % (k, r["iters"], fs(r["d0"]))
             bump(STATS["terminal_status"], sc.kind + ":aborted")
             continue
         it = r["iters"]
+        halfk = sc.kind in HALF_STEP_KINDS
+
+        def comp(j):  # is the defect of iteration j stored?  (_update_defect always stores it)
+            return sc.kind == "rbicgstab" or cfg.computes_defect(j)
         STATS["max_iters_seen"] = max(STATS["max_iters_seen"], it)
         # the defects the solver saw
         hist = r["hist"]
@@ -721,11 +746,11 @@ def oracle_solve(case, out):
         seen = [hist[0]]
         hi = 1
         for j in range(1, it + 1):
-            if cfg.computes_defect(j):
+            if comp(j):
                 if hi < len(hist):
                     seen.append(hist[hi])
                     hi += 1
-                elif sc.kind == "bicgstab" and j == it and st in (2, 4):
+                elif halfk and j == it and st in (2, 4):
                     half_exit = True
                     seen.append(r["d1"])
                 elif st == 3 and j == it:
@@ -733,7 +758,7 @@ def oracle_solve(case, out):
                 else:
                     return tag + "defect history shorter than the iteration count"
             else:
-                if sc.kind == "bicgstab" and j == it and st in (2, 4) and r["d1"] != seen[-1]:
+                if halfk and j == it and st in (2, 4) and r["d1"] != seen[-1]:
                     half_exit = True
                     seen.append(r["d1"])
                 else:
@@ -742,7 +767,7 @@ def oracle_solve(case, out):
             return tag + "more defects computed (%d) than iterations reported (%d)" % (len(hist) - 1, it)
         if r["d1"] != seen[-1]:
             return tag + "get_def_final() is not the last defect"
-        computed_last = (it == 0) or cfg.computes_defect(it) or half_exit
+        computed_last = (it == 0) or comp(it) or half_exit
         # status against the limits and the defects produced
         if st == 3:
             statuses = [1] * (it + 1)
@@ -750,7 +775,7 @@ def oracle_solve(case, out):
             if why:
                 return tag + "before the preconditioner failure: " + why
         elif half_exit:
-            # BiCGStab half step: direct is_diverged / is_converged test (no min_iter: finding c07-edge:F2)
+            # BiCGStab half step: direct is_diverged / is_converged test (max_iter / stagnation are not tested there)
             why = judge_run(cfg, seen[:-1], [1] * it) if it >= 1 else None
             if why:
                 return tag + why
@@ -760,11 +785,11 @@ def oracle_solve(case, out):
             if st == 2 and (cfg.diverged(dh, seen[0]) or not cfg.converged(dh, seen[0])):
                 return tag + "half-step 'success' but the defect does not meet the tolerances"
             if st == 2 and it < cfg.min_iter:
-                edge = edge or F2_MSG % (k, it, cfg.min_iter)
+                return tag + "half-step 'success' after %d iteration(s) although min_iter = %d" % (it, cfg.min_iter)
         else:
             statuses = [1] * it + [st]
             why = judge_run(cfg, seen, statuses, exhausted_ok=False)
-            if why and sc.kind == "bicgstab" and st in (2, 4) and it >= 1 and not cfg.computes_defect(it):
+            if why and halfk and st in (2, 4) and it >= 1 and not comp(it):
                 # a half-step exit whose defect happens to equal the stale stored one
                 why = judge_run(cfg, seen[:-1], [1] * it)
                 dh = r["d1"]
@@ -775,13 +800,16 @@ def oracle_solve(case, out):
                 if not why:
                     half_exit = computed_last = True
                     if st == 2 and it < cfg.min_iter:
-                        edge = edge or F2_MSG % (k, it, cfg.min_iter)
+                        why = "half-step 'success' after %d iteration(s) although min_iter = %d" % (it, cfg.min_iter)
             if why:
                 return tag + why
         # the true residual of the returned iterate
         if computed_last:
             STATS["true_residual_checks"] += 1
-            if r["d1"] != true_res and not (sc.kind == "bicgstab" and st == 3):
+            if half_exit:
+                # the iterate RETURNED by the half-step exit is the one whose residual was judged
+                STATS["half_step_exits_checked"] += 1
+            if r["d1"] != true_res and not (halfk and st == 3):
                 return tag + "reported final defect %s but the true residual ||F(b - A x)|| of the returned iterate is %s" % (
                     r["d1"], true_res)
             if st == 2 and it > 0:
@@ -840,7 +868,121 @@ def oracle_solve(case, out):
     return edge
 
 
+# ---------------------------------------------------------------------------------------------
+# stream 3 (T3, supporting evidence): PCG / PCR / PCGNR / BiCGStab / FGMRES(4) at double; true residual recomputed exactly from the doubles
+# ---------------------------------------------------------------------------------------------
+
+U = Fr(1, 2 ** 53)
+T3_C = 1024         # constant of the a-priori bound  tol*(1+2^-20) + T3_C*(k+1)*n*u*(|A|_1 |x|_1 + |b|_1)
+
+
+def dyad(rng, lo=-4, hi=5, den=(1, 1, 2, 4, 8)):
+    return Fr(rng.randrange(lo, hi), rng.choice(den))
+
+
+def gen_t3(rng):
+    kind = rng.choice(["pcg", "pcg", "bicgstab", "bicgstab", "pcr", "pcgnr", "fgmres", "fgmres"])
+    n = rng.choice([2, 3, 4, 6, 8, 12])
+    if kind in ("pcg", "pcr"):
+        a = gen_spd(rng, n)
+    else:
+        a = gen_nonsym(rng, n, True)
+    cons = sorted(rng.sample(range(n), rng.randrange(0, n // 2 + 1))) if rng.random() < 0.4 else []
+    ftoks = ["unit", str(len(cons))] + [str(i) for i in cons] if cons else ["none"]
+    if rng.random() < 0.5:
+        ptoks = ["none"]
+    else:
+        m = [[(1 / a[i][i] if i == j and i not in cons else Fr(0)) for j in range(n)] for i in range(n)]
+        ptoks = ["mat", fmt_mat(m), "0"]
+    cfg = Cfg(tol_rel=Fr(1, 10 ** rng.randrange(3, 11)), tol_abs=Fr(10 ** 9), tol_abs_low=rng.choice([Fr(0), Fr(1, 10 ** 9)]),
+              div_rel=Fr(10 ** 9), div_abs=Fr(10 ** 12), stag_rate=Fr(19, 20), min_iter=rng.choice([0, 0, 2]),
+              max_iter=rng.choice([3, 60, 60, 60]), min_stag=0, skip=True)
+    ns = rng.choice([1, 2, 3])
+    solves = []
+    for _ in range(ns):
+        mode = rng.choice(["a", "c"])
+        b = [dyad(rng) for _ in range(n)]
+        if mode == "a":
+            b = [Fr(0) if i in cons else b[i] for i in range(n)]
+        x0 = [dyad(rng) for _ in range(n)]
+        solves.append((mode, x0, b, rng.choice([0, 0, 1, 2])))
+    toks = ["solved", kind, str(n), fmt_mat(a)] + ftoks + ptoks + cfg.tokens(False) + ["1", str(ns)]
+    for mode, x0, b, re in solves:
+        toks += [mode, fmt_vec(x0), fmt_vec(b), str(re)]
+    return " ".join(toks)
+
+
+def oracle_t3(case, out):
+    sc = SolveCase(case.replace("solved", "solve", 1))
+    cfg = sc.cfg
+    if is_abnormal(out):
+        return "double-precision session ended with " + out
+    parts = out.split(" | ")
+    if len(parts) != len(sc.solves):
+        return "number of result records differs from the number of solves"
+    tol_rel, tol_abs, tol_low = (Fr(float(cfg.tol_rel)), Fr(float(cfg.tol_abs)), Fr(float(cfg.tol_abs_low)))
+    a1 = sum(abs(v) for row in sc.a for v in row)
+    for k, ((mode, x0, b, re), part) in enumerate(zip(sc.solves, parts)):
+        t = part.split()
+        st, it = int(t[1]), int(t[2])
+        tag = "solve %d (double): " % k
+        if "nonfinite" in t:
+            if st == 3 and cfg.min_iter >= 2:
+                # observation F-C07-4 at floating point: min_iter forces an iteration after exact convergence, 0/0 = NaN,
+                # reported as 'aborted' (consistent with the property: the run does not claim success)
+                bump(STATS["input_classes"], "double-breakdown-forced-by-min-iter")
+                continue
+            if sc.kind == "fgmres" and st in (3, 4):
+                return F7_MSG % k
+            if sc.kind == "bicgstab" and st == 3:
+                bump(STATS["input_classes"], "double-bicgstab-breakdown")
+                continue
+            return tag + "non-finite value returned on a well-conditioned system"
+        d0, d1 = vlib.parse_frac(t[3]), vlib.parse_frac(t[4])
+        n = int(t[5])
+        x = [vlib.parse_frac(z) for z in t[6:6 + n]]
+        if t[6 + n] != "1":
+            return tag + "the right-hand side was modified"
+        if st in (0, 1) or int(t[7 + n]) != st:
+            return tag + "returned status %s / get_status() %s" % (ST_NAMES.get(st), t[7 + n])
+        xs = [Fr(0)] * n if mode == "a" else x0
+        r0 = sc.resid(b, xs) if mode == "c" else b
+        r = sc.resid(b, x)
+        slack = T3_C * (it + 1) * n * U * (a1 * max(sum(abs(v) for v in x), sum(abs(v) for v in xs)) + sum(abs(v) for v in b))
+        # initial defect: the start vector is honoured / ignored
+        n0sq = sum(v * v for v in r0)
+        lo, hi = d0 - slack - d0 * Fr(1, 2 ** 40), d0 + slack + d0 * Fr(1, 2 ** 40)
+        if not ((lo <= 0 or lo * lo <= n0sq) and n0sq <= hi * hi):
+            return tag + "initial defect %s is not ||F(b - A x0)|| = sqrt(%s) up to rounding" % (float(d0), float(n0sq))
+        if st == 2 and it > 0:
+            thr = min(tol_abs, max(tol_rel * d0, tol_low))
+            bound = thr * (1 + Fr(1, 2 ** 20)) + slack
+            if sum(v * v for v in r) > bound * bound:
+                return tag + "'success' but the true residual %.3e of the returned doubles exceeds tol %.3e + rounding " \
+                             "allowance %.3e" % (math.sqrt(float(sum(v * v for v in r))), float(thr), float(slack))
+            STATS["t3_success_checks"] = STATS.get("t3_success_checks", 0) + 1
+        if st == 5 and it < cfg.max_iter:
+            return tag + "'max_iter' after %d < %d iterations" % (it, cfg.max_iter)
+        if st == 3 and cfg.min_iter >= 2:
+            # observation F-C07-4: min_iter forces iterations after exact convergence (0/0), reported as 'aborted'
+            bump(STATS["input_classes"], "double-breakdown-forced-by-min-iter")
+            continue
+        if sc.kind == "fgmres" and st in (3, 4):
+            return F7_MSG % k
+        if sc.kind == "bicgstab" and st == 3:
+            # BiCGStab breakdown (rho or omega vanish for this shadow residual): a property of the method, reported
+            # truthfully as 'aborted'
+            bump(STATS["input_classes"], "double-bicgstab-breakdown")
+            continue
+        if st in (3, 4, 6):
+            return tag + "status %s on a well-conditioned system within the method's scope" % ST_NAMES[st]
+        bump(STATS["terminal_status"], "double-" + sc.kind + ":" + ST_NAMES[st])
+    return None
+
+
 def oracle(case, out):
+    if case.startswith("solved"):
+        return oracle_t3(case, out)
     if case.startswith("ctl"):
         return oracle_ctl(case, out)
     return oracle_solve(case, out)
@@ -850,7 +992,7 @@ def nontrivial(case):
     t = case.split()
     if t[0] == "ctl":
         return int(t[14]) >= 3
-    return int(t[2]) >= 2
+    return int(t[2]) >= 2  # solve / solved: system size
 
 
 def describe(case):
@@ -858,10 +1000,14 @@ def describe(case):
     if t[0] == "ctl":
         return ["op:ctl", "ctl-variant:" + ("update_defect" if t[1] == "1" else "set_new_defect"), "ctl-len:" + t[14],
                 "ctl-skip:" + t[11], "ctl-plot:" + t[12]]
+    if t[0] == "solved":
+        return ["op:solved", "t3-solver:" + t[1], "t3-n:" + t[2]]
     sc = SolveCase(case)
     keys = ["op:solve", "solver:" + sc.kind, "n:%d" % sc.n, "filter:%s" % (sc.filter if not sc.cons else "unit+%d" % len(sc.cons)),
             "precond:" + ("none" if sc.m is None else ("failing" if sc.fail_at else "matrix")),
             "solves:%d" % len(sc.solves), "scope:" + ("in" if in_scope(sc) else "out")]
+    if case in PROBE_SET:
+        keys.append("probe:state-leak")
     keys += ["mode:" + ("apply" if m == "a" else "correct") for m, _, _, _ in sc.solves]
     keys += ["reinit:%d" % re for _, _, _, re in sc.solves]
     return keys
@@ -878,11 +1024,43 @@ def signature(case, out, why):
     return "%s:%s" % (" ".join(t[:2]), (why or "")[:60])
 
 
-F2_MSG = "[c07-edge:F2] solve %d: BiCGStab returned 'success' from its half-step test after %d iteration(s) although " \
-         "min_iter = %d: not consistent with the configured limits"
+F7_MSG = "[c07-edge:F7] solve %d (double): FGMRES does not handle the happy breakdown (Arnoldi vector of norm 0 when the " \
+         "Krylov space is exhausted): division by (nearly) zero, 'aborted'/'diverged' with a non-finite or huge iterate on a " \
+         "nonsingular system"
+F6_MSG = "[c07-edge:F6] solve %d: BiCGStab aborted before _set_initial_defect (preconditioner failed on the initial " \
+         "defect) and still reports the previous solve's num_iter=%d / def_init=%s: the outcome depends on the history"
 F3_MSG = "[c07-edge:F3] solve %d: 'success' after %d iteration(s) with skipped defect computation (skip_defect_calc, " \
          "min_iter >= max_iter): the true residual %s of the returned iterate violates the tolerances; the status was " \
          "judged from the stale stored defect %s"
+
+def leak_probes():
+    """Deterministic sessions (every tier, every seed) on one Richardson object, A = diag(1/100, a2), omega = 1:
+    a PREVIOUS solve that ends in each terminal status and leaves a non-zero stagnation counter / iteration count,
+    followed by a solve whose fresh outcome differs from the outcome with a leaked `_num_stag_iter`/`_num_iter`:
+    the slow component shrinks by 99/100 per step (stagnating for stag_rate 9/10), and the tolerances are set so
+    that the fresh run converges one step before the counter would reach min_stag_iter."""
+    out = []
+    big = "1000000000"
+
+    def line(a2, pre, tol_rel, div_rel, min_stag, max_iter, solves):
+        toks = ["solve rich 2 1/100 0 0 %s none" % a2, pre, tol_rel, big, "0", div_rel, big + "000", "9/10", "0",
+                str(max_iter), str(min_stag), "1", "1", str(len(solves))]
+        for mode, x0, b, re in solves:
+            toks += [mode, x0, b, str(re)]
+        return " ".join(toks)
+
+    slow, fast = "1 0", "0 1"
+    for re in (0, 1, 2):
+        for mode in ("a", "c"):
+            nxt = (mode, "0 0", slow, re)
+            # previous solve ends with success / stagnated / max_iter / diverged / aborted
+            out.append(line("0", "none", "985/1000", big, 2, 10, [("a", "5 5", slow, 0), nxt, nxt]))
+            out.append(line("0", "none", "985/1000", big, 2, 10, [("a", "5 5", fast, 0), nxt, ("c", "0 0", fast, re), nxt]))
+            out.append(line("0", "none", "985/1000", big, 2, 2, [("a", "5 5", fast, 0), nxt]))
+            out.append(line("-1/5", "none", "975/1000", "3/2", 3, 10, [("a", "5 5", fast, 0), nxt]))
+            out.append(line("0", "mat 1 0 0 1 2", "985/1000", big, 2, 10, [("a", "5 5", fast, 0), nxt]))
+    return out
+
 
 CORPUS = [
     # each terminal status of the control machine
@@ -899,18 +1077,31 @@ CORPUS = [
     "solve rich 2 2 1 1 3 unit 1 0 mat 0 0 0 1/3 0 1/1000 1000000000 0 1000000000 1000000000000 19/20 0 10 0 1 1/2 2 a 5 5 0 2 0 c 1 1 1 2 0",
     "solve pcr 3 2 -1 0 -1 2 -1 0 -1 2 none none 0 1000000000 0 1000000000 1000000000000 19/20 0 9 0 1 1 1 c 1 0 0 1 2 3 0",
     "solve bicgstab 2 3 1 -1 2 none none 0 1000000000 0 1000000000 1000000000000 19/20 0 9 0 1 1 2 a 1 1 1 2 0 c 0 0 1 2 0",
+    "solve pcgnr 2 3 1 -1 2 none none 0 1000000000 0 1000000000 1000000000000 19/20 0 6 0 1 1 2 a 1 1 1 2 0 c 0 0 1 2 1",
+    "solve pcgnr 3 2 1 0 -1 3 1 0 0 -2 unit 1 1 mat 1/3 0 0 0 0 0 0 0 1/2 0 1/100 1000000000 0 1000000000 1000000000000 19/20 0 6 2 1 1 2 a 1 1 1 1 0 2 0 c 0 5 1 1 2 3 2",
     "solve pmr 2 2 1 1 3 none mat 1/2 0 0 1/3 0 1/100 1000000000 0 1000000000 1000000000000 19/20 0 5 0 1 1 2 a 9 9 1 2 0 c 1 1 1 2 2",
     # Richardson with a diverging damping parameter and a fixed iteration count: open finding c07-edge:F3
     "solve rich 1 1 none none 1 1000000000 0 1000000000 1000000000000 19/20 2 2 0 1 3 1 a 0 1 0",
-    # BiCGStab half-step success before min_iter: open finding c07-edge:F2
+    # BiCGStab half-step success before min_iter: finding F2, fixed in /repo 784169477 (regression line)
     "solve bicgstab 1 2 none none 1/2 1000000000 0 1000000000 1000000000000 19/20 3 9 0 1 1 1 a 0 1 0",
     # F-C07-1 (fixed in /repo, c0d18e9d5): BiCGStab on an already converged initial defect -> success, 0 iterations
     "solve bicgstab 2 2 1 1 3 none none 1/1000000 1000000000 0 1000000000 1000000000000 19/20 0 10 0 1 1 2 "
     "c 1 1 3 4 0 a 7 7 0 0 0",
+    # F-C07-6 (open finding c07-edge:F6): BiCGStab aborts before _set_initial_defect; counters of the previous solve stay
+    "solve bicgstab 2 2 1 1 3 none mat 1 0 0 1 0 1/1000000 1000000000 0 1000000000 1000000000000 19/20 0 6 0 1 1 3 "
+    "a 0 0 1 2 0 a 0 0 7777 1 0 a 0 0 1 2 0",
     # observations F-C07-4 (0/0 forced by min_iter) and F-C07-5 (initial check ignores tol_abs)
     "solve pcg 1 2 none none 1/2 1000000000 0 1000000000 1000000000000 19/20 3 9 0 1 1 1 a 0 1 0",
     "solve pcg 1 2 none none 1/1000000 1/100 1/2 1000000000 1000000000000 19/20 0 9 0 1 1 1 a 0 1/4 0",
 ]
+
+
+T3_CORPUS = [
+    # open finding c07-edge:F7: FGMRES(4) on the 2x2 identity: the Krylov space has dimension 1
+    "solved fgmres 2 1 0 0 1 none none 1/10000000 1000000000 0 1000000000 1000000000000 19/20 0 60 0 1 1 1 a 0 0 1 2 0",
+    "solved pcg 2 1 0 0 1 none none 1/10000000 1000000000 0 1000000000 1000000000000 19/20 0 60 0 1 1 1 a 0 0 1 2 0",
+]
+PROBE_SET = set(leak_probes())
 
 
 def main(argv):
@@ -927,10 +1118,10 @@ def main(argv):
     if args.replay:
         case = json.load(open(args.replay))["input"]
         ctl_cases = [case] if case.startswith("ctl") else []
-        solve_cases = [] if case.startswith("ctl") else [case]
+        solve_cases = [case] if case.startswith("solve ") else []
     else:
         ctl_cases = [c for c in CORPUS if c.startswith("ctl")] + [gen_ctl(rng) for _ in range(20000 if quick else 150000)]
-        solve_cases = [c for c in CORPUS if c.startswith("solve")] + \
+        solve_cases = [c for c in CORPUS if c.startswith("solve")] + leak_probes() + \
                       [gen_solve(rng, args.tier) for _ in range(6000 if quick else 40000)]
     streams = []
     if ctl_cases:
@@ -939,13 +1130,21 @@ def main(argv):
     if solve_cases:
         streams.append(vlib.Stream("solvers", solve_cases, [binary], vlib.driver_cmd(PROP), oracle=oracle,
                                    nontrivial=nontrivial, describe=describe, signature=signature, canon=canon))
+    if not args.replay or case.startswith("solved"):
+        t3_cases = [case] if args.replay else T3_CORPUS + [gen_t3(rng) for _ in range(1500 if quick else 15000)]
+        streams.append(vlib.Stream("double-precision", t3_cases, [binary], None, oracle=oracle, nontrivial=nontrivial,
+                                   describe=describe, signature=signature, canon=canon))
     extra = {"rule": "control: the real IterativeSolver state machine (via a test subclass) on dyadic/non-finite defect "
                      "sequences of length 1..14 with all min/max-iter, tolerance, divergence, stagnation, skip_defect_calc "
                      "and plot settings, values placed exactly on the thresholds; non-trivial = at least 3 defects. "
                      "solvers: sessions of 1..4 apply()/correct() calls with re-initialisation on one real PCG / Richardson / "
                      "PCR / BiCGStab object at the exact scalar, SPD / diagonally dominant nonsymmetric / indefinite matrices "
                      "of size 1..8, NoneFilter / UnitFilter, no / Jacobi / SPD / arbitrary / failing preconditioner; "
-                     "non-trivial = system size >= 2",
+                     "non-trivial = system size >= 2. double-precision (T3, supporting evidence): real PCG / PCR / PCGNR / BiCGStab / FGMRES(4) "
+                     "at double on SPD / diagonally dominant systems of size 2..12 with exactly representable data; "
+                     "'success' => true residual of the returned doubles (exact arithmetic) <= tol*(1+2^-20) + "
+                     "1024*(k+1)*n*u*(|A|_1 |x|_1 + |b|_1) (heuristic constant: the residual gap of BiCGStab "
+                     "depends on the largest intermediate iterate)",
              "measured": STATS}
     rc = vlib.run_pipeline(PROP, args.tier, args.seed, lean, streams, t0, assumptions=[
         "control stream: double comparisons are exact because all inputs are small dyadic numbers",
